@@ -40,6 +40,7 @@ type SV struct {
 	Fn    *ssa.Function // closure target
 	Bind  []SV          // closure bindings
 	Dyn   string        // dynamic type of an interface value, when known
+	DynT  types.Type    // the same as a type
 }
 
 func symInt(n int64) SV     { return SV{K: "int", Known: true, N: n, Desc: fmt.Sprint(n)} }
@@ -58,6 +59,25 @@ func symSliceCap(desc string, n, c int64) SV {
 	return SV{K: "slice", Desc: desc, Len: &l, Cap: &cp}
 }
 func symRef(desc string, isNil bool) SV { return SV{K: "ref", Known: true, Nil: isNil, Desc: desc} }
+
+// boundStat counts, per index/slice instruction, how often the evaluator met it with concrete operands and
+// how often it was out of range. C04 discharges a site from it: evaluated in the scenario tables, never out of range.
+type boundStat struct{ ok, oob int }
+
+var boundsSeen = map[ssa.Instruction]*boundStat{}
+
+func noteBound(in ssa.Instruction, oob bool) {
+	bs := boundsSeen[in]
+	if bs == nil {
+		bs = &boundStat{}
+		boundsSeen[in] = bs
+	}
+	if oob {
+		bs.oob++
+	} else {
+		bs.ok++
+	}
+}
 
 // Event is one observable step of a path.
 type Event struct {
@@ -542,7 +562,8 @@ func (ev *symEval) runBlock(fr *symFrame, b *ssa.BasicBlock, idx int, st *symSta
 			addr := ev.val(fr, x.Addr)
 			v := ev.val(fr, x.Val)
 			st.heap[addr.Desc] = v
-			if v.K == "struct" && v.Desc != addr.Desc {
+			_, valIsStruct := x.Val.Type().Underlying().(*types.Struct)
+			if (v.K == "struct" || (v.K == "opaque" && valIsStruct)) && v.Desc != addr.Desc {
 				// struct assignment: copy the fields known for the source object
 				pre := v.Desc + "."
 				for k, fv := range st.heap {
@@ -767,6 +788,23 @@ func (ev *symEval) doCall(fr *symFrame, st *symState, x *ssa.Call) ([]outcome, b
 			return nil, false
 		}
 	}
+	if (id == "bytes.IndexByte" || id == "strings.IndexByte") && len(args) == 2 && args[0].Len != nil && args[0].Len.Known && args[0].Len.N <= 64 {
+		// a search in symbolic content of known length: every answer -1, 0 .. len-1 is explored
+		var outs []outcome
+		for i := int64(-1); i < args[0].Len.N; i++ {
+			s2 := st.clone()
+			e := ev.callEvent(fr, "call", x)
+			e.Note = fmt.Sprintf("at %d", i)
+			s2.trace = append(s2.trace, e)
+			outs = append(outs, outcome{st: s2, ret: []SV{symInt(i)}, kind: "return"})
+			ev.paths++
+		}
+		if ev.paths > ev.maxPaths {
+			ev.err = fmt.Errorf("path explosion in %s", fname(fr.fn))
+			return nil, true
+		}
+		return outs, true
+	}
 	if f := cc.StaticCallee(); f != nil && ev.inline(f) && fr.depth < 6 && len(f.Blocks) > 0 {
 		var bind []SV
 		if mc, ok := cc.Value.(*ssa.MakeClosure); ok {
@@ -892,6 +930,9 @@ func (ev *symEval) evalValue(fr *symFrame, st *symState, v ssa.Value) SV {
 	case *ssa.IndexAddr:
 		base := ev.val(fr, x.X)
 		i := ev.val(fr, x.Index)
+		if base.Len != nil && base.Len.Known && i.K == "int" && i.Known {
+			noteBound(x, i.N < 0 || i.N >= base.Len.N)
+		}
 		if base.Len != nil && base.Len.Known && i.K == "int" && i.Known && (i.N < 0 || i.N >= base.Len.N) {
 			st.dead = true
 			st.trace = append(st.trace, Event{Kind: "oob", What: "index", Args: []string{fmt.Sprintf("%s[%d] with len %d", base.Desc, i.N, base.Len.N)}, In: fname(fr.fn)})
@@ -965,6 +1006,7 @@ func (ev *symEval) evalValue(fr *symFrame, st *symState, v ssa.Value) SV {
 		if a.K == "ref" || a.K == "addr" {
 			if !(a.K == "ref" && a.Known && a.Nil) {
 				a.Dyn = typeStr(x.X.Type())
+				a.DynT = x.X.Type()
 			}
 			return a
 		}
@@ -974,6 +1016,7 @@ func (ev *symEval) evalValue(fr *symFrame, st *symState, v ssa.Value) SV {
 		r.Known = true
 		r.Nil = false
 		r.Dyn = typeStr(x.X.Type())
+		r.DynT = x.X.Type()
 		return r
 	case *ssa.Slice:
 		base := ev.val(fr, x.X)
@@ -1034,6 +1077,9 @@ func (ev *symEval) evalValue(fr *symFrame, st *symState, v ssa.Value) SV {
 			}
 			if hiv != nil {
 				hi0, hiK = hiv.N, hiv.K == "int" && hiv.Known
+			}
+			if loK && hiK {
+				noteBound(x, lo0 < 0 || lo0 > hi0 || hi0 > limit)
 			}
 			if loK && hiK && (lo0 < 0 || lo0 > hi0 || hi0 > limit) {
 				st.dead = true
